@@ -71,6 +71,11 @@ def main():
                     if rc == 1 and 'VIOLATION property=%s' % q in out:
                         ok, by = True, ('' if q == pid else ' by ' + q)
                         break
+                if not ok and meta.get('out_of_domain'):
+                    # the change only shows on inputs on which the unchanged tree does not satisfy the property either (documented
+                    # domain limit): no sound check can decide it -- listed, not counted
+                    print('%-4s %-40s not decided (outside the domain of the check: %s)' % (pid, name, meta['out_of_domain']))
+                    continue
                 print('%-4s %-40s %s' % (pid, name, ('caught' + by) if ok else 'MISSED (exit %d)' % rc))
                 if args.v or not ok:
                     print('\n'.join('      ' + l for l in out.splitlines() if 'violated' in l or 'VIOLATION' in l or 'HARNESS' in l)[:3000])
